@@ -227,6 +227,19 @@ func resetPools() {
 	}
 }
 
+// RegisterReset registers a function that puts a package's variables back to their initial values;
+// simgen generates one per package of the system under test and every run starts by calling them all
+// (in package initialisation order, which is fixed).
+var resets []func()
+
+func RegisterReset(f func()) { resets = append(resets, f) }
+
+func resetPackages() {
+	for _, f := range resets {
+		f()
+	}
+}
+
 //go:norace
 func (p *Pool) Put(x interface{}) {
 	if x == nil {
